@@ -96,8 +96,20 @@ def _stage_inverse(chk):
                       facts={"forward": list(f[2]), "inverse": list(i[2])})
 
 
+def _whitener_labels(chk):
+    """MIRROR.whitener.labels - un-whitening multiplies by the stored inverse matrix contracted by dimension NAME: the
+    inverse must be labelled (mode, feature) and the forward matrix (feature, mode), else the transpose is applied
+    (identical for real data, the element-wise conjugate for complex data: the reconstruction is wrong)"""
+    from .c16 import kernel_labels
+    lab, cw, call = kernel_labels(chk)
+    chk.check(lab == [["feature", "mode"], ["mode", "feature"]], "MIRROR.whitener.labels", cw, call, construct="whitening kernel outputs labelled T: (feature, mode), Tinv: (mode, feature)",
+              why=f"the whitening matrices are labelled {lab}: inverse_transform_data contracts by name and so applies the transpose of the stored inverse - "
+                  "complex data are not restored")
+
+
 def check(chk):
     _modesel(chk)
+    _whitener_labels(chk)
     _affine(chk)
     _stages(chk)
     _scores_identity(chk)
